@@ -8,7 +8,8 @@ CLAIMED = {
          "write/update/reject edge of depth <= 2 per family (and every cross-family edge of depth 1, pair updates, partially applied "
          "rejected updates) and each edge is replayed through the real add_*/update_*/get_* functions with all keys read back bit for bit "
          "and both directory trees listed; random long call sequences recorded from the real code are validated by TLC against "
-         "Trace_Repository.tla. Exhaustive within the small key universe, sampled beyond.",
+         "Trace_Repository.tla. The install_adf11* / install_adf21 / install_adf22* front-ends are actions too (Install: the keys one call writes), interleaved with add / update; "
+         "between the calls the caller reads every key back in every equivalent spelling (probe), so a read cache shows. Exhaustive within the small key universe, sampled beyond.",
     note="Trusts: json/numpy float round trip is what the library uses; key universe of 2-3 species x 2 charges x 2 transitions x 2 metastables; "
          "ADF11-style tables passed under 'rates'. Concurrent writers and crash atomicity are outside the property.",
     technique="TLA+ state machine + TLC exhaustive edges replayed into the code; TLC trace validation of recorded call sequences",
@@ -26,7 +27,7 @@ CLAIMED = {
          "dependency table; TLC explores all setter / invalid-setter / getter interleavings to depth 3-4 (4-6 thorough), checks NoStale and the range / bin-width "
          "inequalities on exact integer settings, and every edge is replayed on the real class and compared with an instrument constructed directly from the final "
          "parameters and with TLC's exact min/max/bins. Calibrate.tla computes the exact per-pixel integrals of raysect's piecewise-linear spectrum for 81 "
-         "layout x source-grid cases; Spectrometer.calibrate is compared with them (rtol 1e-12).",
+         "layout x source-grid cases; Spectrometer.calibrate is compared with them (rtol 1e-12) and is a getter action of the state machine (calibrate, change, calibrate). Ghost variable 'used' makes read-then-change histories distinct states.",
     note="Czerny-Turner optics formula is opaque (mutated-vs-fresh only); exact settings use integer layouts and power-of-two min_bins; raysect Spectrum.integrate semantics trusted as the definition of the integral.",
     technique="TLA+ lazy-settings state machine + exact rational calibration table, TLC exhaustive edges replayed into the code",
     design="4.16"),
@@ -65,7 +66,7 @@ CLAIMED = {
          "binned spectrum) with valid and invalid setters and pure reads, and specifies the admissible exact tilings of the laser length into segments over rationals. TLC explores all "
          "histories to depth 3 (4 thorough); each edge is replayed on the real object (profiles attached to a real Laser node) and compared with a freshly constructed one; on the "
          "final object the segments are checked against the spec's tilings and the documented identities (cross-section integral = Ep/(c tau), trivariate volume integral = Ep, "
-         "per-bin power = integral of the PSD, reported range) are evaluated numerically.",
+         "per-bin power = integral of the PSD, reported range) are evaluated numerically; energy densities are also compared pointwise with the closed forms, constructor defaults are one of the values (setting a parameter to its default is a change like any other).",
     note="Integrals by tensor trapezoid quadrature (1e-8 / 1e-7); two values per parameter; the number of segments may be floor(L/2r) or one less (floating-point floor), both tile exactly.",
     technique="TLA+ setter state machine + rational tiling, TLC exhaustive edges replayed vs fresh object; numeric identities on final objects",
     design="4.18"),
@@ -81,15 +82,16 @@ CLAIMED = {
     text="Caching.tla models the lazy per-cell cache protocol of Caching1D/2D/3D (sampled nodes, calculated cells, which stencil nodes an evaluation asks the wrapped function for and in which order) "
          "and, for 1-D, the exact cubic-Hermite interpolant over integers (x128) for an integer-coefficient polynomial family; TLC checks each node is requested at most once, the value is a function of the "
          "point only, node exactness, exact reproduction of linear functions and the h^2 error bound on cubics, over all evaluation orders to depth 2-3 (3-4 thorough). Every order is replayed on the real "
-         "classes with a recording polynomial in two configurations (no_boundary_error/function_boundaries): asked nodes and order, value vs exact interpolant, value vs a fresh instance, value vs the unbounded variant.",
-    note="Area [0,N], resolution 1; agreement with the exact interpolant limited to 2e-5 by the code's 1e-7 node shift; the h^2 bound for arbitrary C2 functions is not decided (polynomial family only).",
+         "classes with a recording polynomial in two configurations (no_boundary_error/function_boundaries): asked nodes and order, value vs exact interpolant, value vs a fresh instance, value vs the unbounded variant. Per-axis spacings (1, 0.5, 0.25) and lattices displaced from the origin / of 5 mm resolution (Origins): the protocol and history independence hold there; "
+         "Caching3D's loss of accuracy away from the origin is the recorded known finding (three listed signatures).",
+    note="Areas [x0, x0 + N h]; agreement with the exact interpolant limited to 2e-5 by the code's 1e-7 node shift; the h^2 bound for arbitrary C2 functions is not decided (polynomial family only).",
     technique="TLA+ cache-protocol state machine + exact integer Hermite interpolant, TLC-explored evaluation orders replayed on the code",
     design="4.14"),
  "C20": dict(
     text="GridOps.tla enumerates (grid size 2..4 x 2..4, voxel width/height, operator, integer polynomial field, cell) rows with the exact derivative the statement demands "
          "(constants, linear fields for Dx/Dy in every cell, bilinear for Dxy in every cell, quadratics for Dxx/Dyy in interior cells) and (flux map, field, anisotropy 1/2/10, interior cell) rows with "
          "div(D grad f) in cylindrical geometry as an exact integer fraction; TLC checks the Laplacian limit and annihilation of constants on the formula and ~6 300 rows are evaluated on the real "
-         "generate_derivative_operators / calculate_admt (1e-9), which must also leave the operators passed in unchanged.",
+         "generate_derivative_operators / calculate_admt (1e-9), which must also leave the operators passed in unchanged. Unit laws: the length unit changed by 1e-3 / 1e3 scales first / second derivative operators by the exact power; psi multiplied by 1e-8 / 1e8 leaves the ADMT operator unchanged.",
     note="Polynomial (quadratic) flux maps and fields on integer cell centres only: the coefficient formulas are verified, not the truncation order for non-polynomial flux maps.",
     technique="TLA+ exact integer case table enumerated by TLC, one operator-row test per case",
     design="4.20"),
@@ -106,7 +108,8 @@ CLAIMED = {
          "stopping rule); TLC explores every instance over small integer matrices (all 2x2 over {0,1,2}, 2x3/3x2 over {0,1} incl. zero rows/columns), measurements, three initial guesses, "
          "two relaxations, with/without penalty, checks non-negativity, the fixed-point and unseen-voxel invariants, and every terminal state (iterate, convergence list, iteration count) is "
          "compared with invert_sart / invert_constrained_sart (1e-10). LeastSquares.tla computes the exact minimisers of the Tikhonov-regularised problem with two unknowns by Cramer's rule "
-         "and active-set enumeration, checks normal equations / KKT uniqueness, and is compared with invert_regularised_lstsq / _nnls (solution and reported residual); invert_svd by certificate.",
+         "and active-set enumeration, checks normal equations / KKT uniqueness, and is compared with invert_regularised_lstsq / _nnls (solution and reported residual, default and caller-supplied Tikhonov matrix, also as the second call of an alpha scan reusing that matrix); invert_svd against the exact minimum-norm solution. "
+         "Scale laws: W and b multiplied by 1e6 / 1e-12 (SART) and 1e4 / 1e-20 (least squares) must give the exactly scaled iterate / minimiser.",
     note="Tiny integer instances only (32-bit exact rationals limit SART to 2 iterations, 3 for 3x1); large / ill-conditioned systems and the OpenCL variant are not exercised; default e^-1 guess not used.",
     technique="TLA+ SART state machine over exact rationals + exact KKT minimisers, TLC-enumerated instances compared with the solvers",
     design="4.11"),
@@ -115,8 +118,9 @@ CLAIMED = {
          "the exact rational steady-state populations and checks unit-simplex, neighbour balance and mean-charge invariants (Z <= 8 exact; Z up to 18 rates only). Every instance is run on a mock "
          "AtomicData through fractional_abundance (scalar, ndarray, Function1D, Function2D + free variables), from_elementdensity, match_plasma_neutrality (charge closure, non-negativity) and the "
          "1-D interpolator front-ends; results are compared with the exact fractions / balance equations (1e-7) and with each other. IonSession.tla generates sequences of entry-point calls "
-         "(entry x element x representation x donor, depth 2-3) that share one set of caller-owned profile arrays with T_e/n_e-dependent rates: after every call the arrays must be untouched and the result equal to the same call on fresh scalar inputs.",
-    note="Constant (n_e, T_e-independent) rates at physical magnitude (k x 1e-14 m^3/s, n_e = 3e19): with O(1) rates lsq_linear is hopelessly scaled (observed, not asserted); equilibrium-mapped wrappers not exercised.",
+         "(entry x element x representation x donor, depth 2-3) that share one set of caller-owned profile arrays with T_e/n_e-dependent rates: after every call the arrays must be untouched and the result equal to the same call on fresh scalar inputs; providers whose served tables change between calls (Update; call - update - call). "
+         "Power-of-ten rate patterns spanning 2, 6 and 20 orders of magnitude with exact populations 10^k: spans 2 and 6 agree to 1e-8, span 20 is the recorded known finding (lsq_linear breakdown / non-termination; six listed signatures).",
+    note="Rates at physical magnitude (k x 1e-14 m^3/s, n_e = 3e19); the wide-span instances are the only ones that leave it. A balance evaluation that does not return within 20 s is reported as non-termination.",
     technique="TLA+ exact rational balance table enumerated by TLC, every entry point x representation compared per instance; TLA+ call-sequence model for purity / shared inputs",
     design="4.9"),
  "C10": dict(
@@ -143,8 +147,9 @@ CLAIMED = {
     text="Emission.tla (beam part) gives the beam CX coefficient as the exact population-weighted mean (fractions over integer coefficients, two metastables, populations from the Z-weighted species sum) and "
          "the beam-emission charged sum; TLC checks min q <= q <= max q and vanishing for zero beam density over all ion compositions; each configuration is executed through BeamCXLine / "
          "BeamEmissionLine.emission on a real Beam with a constant-density attenuator stub, totals compared (1e-9) and every coefficient's evaluation arguments (E_int, T, total ion density, Z_eff, |B|; "
-         "sum Z^2 n / Z_i) compared with the spec's sums.",
-    note="Species at rest (interaction energy = beam energy); non-collinear flows not enumerated; constant mock coefficients.",
+         "sum Z^2 n / Z_i) compared with the spec's sums; flowing species (per-species bulk velocities, beam frame rotated against the plasma frame) give each coefficient its own exact interaction energy. "
+         "Composition.tla models the plasma composition manager (set / add / clear, order, identity, notifications) with Z-effective and ion density after every step, replayed on a real Plasma.",
+    note="Constant mock coefficients; one point; velocities from a table of integer-length relative velocities.",
     technique="TLA+ exact rational mean / charged sum enumerated by TLC, one emission call per configuration + argument trace check",
     design="4.5"),
  "C02": dict(
@@ -171,15 +176,15 @@ CLAIMED = {
          "(inside polygon AND psi_n <= 1), a linear profile mapped / outside value, the exact gradient and the un-normalised poloidal / normal directions, 6 rational toroidal angles; TLC checks psi_n >= 0, "
          "orthogonality, normal = poloidal x toroidal, B.n = 0, equal lengths, up-down symmetry. 2 352 rows are compared on a real EFITEquilibrium (psi_normalised, inside_lcfs, map2d with function and 2xN "
          "array profiles, map3d, b_field inside/vacuum, poloidal_vector, surface_normal, map_vector2d/3d incl. the magnetic axis and the midplane) and the same identities are evaluated with recorded inputs at "
-         "seeded random points of the bundled example and Generomak equilibria.",
-    note="Exactness only at grid nodes of quadratic psi; interpolation accuracy between nodes and the bundled data files themselves are not checked.",
+         "seeded random points of the bundled example and Generomak equilibria. Also: an axis-flux offset (psi_n stays in [0, 1] between nodes), the limiter polygon, 2x2 profile tables, psi in other units (PsiScaleExps: same psi_n, same directions), one mapped vector function with a non-zero outside value at several angles in turn.",
+    note="Exactness only at grid nodes of quadratic psi; between nodes only sign / range / monotone-profile statements; the bundled data files themselves are not checked.",
     technique="TLA+ exact node table enumerated by TLC, one evaluation per row on a real equilibrium; identities with recorded inputs on bundled equilibria",
     design="4.12"),
  "C08": dict(
     text="AdfFormat.tla describes ADF11, ADF12, ADF15, ADF21 and ADF22 files as abstract documents (grid sizes incl. non-multiples of the values per line, block ranges up to 18 charge states, "
          "six ADF11 classes with their charge-state convention, three ADF15 header conventions with EXCIT/RECOM/CHEXC blocks, index order differing from block order, an index entry without block, "
          "element mismatch, ADF12 used counts below the fixed capacities) whose every numeric entry is a distinct function of (block, row, column), and states the documented conventions; TLC enumerates "
-         "~2 300 documents, each rendered by an independent writer, parsed, installed into a temporary repository and read back, compared entry by entry (1e-12) incl. rejections and stray files under $HOME.",
+         "~2 300 documents, each rendered by an independent writer, parsed, installed into a temporary repository and read back, compared entry by entry (1e-12) incl. rejections and stray files under $HOME. Variants: ADF15 index with / without the rule line, ADF11 with / without a trailing comment section; the thorough tier instantiates the larger tables (Deep).",
     note="No real ADAS files offline: ADF11 layout and all value/wrapping layouts follow the published fixed-width formats, but header column positions of ADF12/21/22 and the wording of ADF15 index lines follow what the parser documents; resolved ADF11 not generated.",
     technique="TLA+ abstract document table enumerated by TLC, independent writer -> parser/installer round trip per document",
     design="4.8"),
